@@ -93,6 +93,8 @@ type Exec struct {
 	freshBytes     map[string]bool
 	detExt         map[string]bool
 	preludeText    string
+	entryAsserts   int     // number of background assertions that describe the entry state only (axioms, parameter facts, requires)
+	replayFacts    []*Term // facts about values synthesised for a replay
 	labels         map[string]*State
 	exit           *State
 	bvN            int
@@ -571,6 +573,7 @@ func (x *Exec) run() (err error) {
 	}
 	x.entry = st.clone()
 	st.snap = x.entry
+	x.entryAsserts = len(x.asserts)
 
 	order := x.blockOrder()
 	for _, b := range order {
